@@ -1193,7 +1193,7 @@ DDL_CORPUS = [
 def gen_ddl(tier):
     rnd = lib.rng('C04ddl')
     hs = [list(h) for h in DDL_CORPUS]
-    n = 96 if tier == 'quick' else 3600
+    n = 96 if tier == 'quick' else 2400
     for j in range(n):
         style = 'kf' if j % 12 == 11 else ('adv' if j % 12 in (1, 3, 5, 7, 9) else 'plain')
         hs.append(ddl_history(rnd, 13 if tier == 'quick' else 15, style))
